@@ -48,7 +48,7 @@ func (w *W) opt(o *scen.Op) any {
 	case "attrs":
 		return slog.WithAttrs(w.attrs(o.Args)...)
 	case "attrs1":
-		return slog.WithAttrs1(slog.Attrs(w.attrs(o.Args)))
+		return slog.WithAttrs1(w.attrs1(o))
 	case "args":
 		return slog.With(w.args(o.Args)...)
 	case "writer":
@@ -71,6 +71,25 @@ func (w *W) opt(o *scen.Op) any {
 		return slog.ResetLevelWriters()
 	}
 	return nil
+}
+
+// attrs1 returns the Attrs value of an attrs1 setting. With J > 0 the SAME caller-owned
+// slice (built once by NewAttrs, so with spare capacity) is handed to every op that names it.
+func (w *W) attrs1(o *scen.Op) slog.Attrs {
+	if o.J > 0 {
+		if v, ok := w.shared[-int(o.J)]; ok {
+			return v.(slog.Attrs)
+		}
+		// as key, value pairs: the list NewAttrs builds then has spare capacity (len 3n, cap >= 4n)
+		var list []any
+		for _, a := range w.attrs(o.Args) {
+			list = append(list, a.Key(), a.Value())
+		}
+		v := slog.NewAttrs(list...)
+		w.shared[-int(o.J)] = v
+		return v
+	}
+	return slog.Attrs(w.attrs(o.Args))
 }
 
 func (w *W) wr(o *scen.Op) io.Writer {
@@ -252,7 +271,7 @@ func (w *W) exec(task int, op *scen.Op) {
 		case "attrs":
 			res = l.WithAttrs(w.attrs(op.Args)...)
 		case "attrs1":
-			res = l.WithAttrs1(slog.Attrs(w.attrs(op.Args)))
+			res = l.WithAttrs1(w.attrs1(op))
 		case "args":
 			res = l.With(w.args(op.Args)...)
 		case "skip":
@@ -286,7 +305,7 @@ func (w *W) exec(task int, op *scen.Op) {
 		case "attrs":
 			res = l.SetAttrs(w.attrs(op.Args)...)
 		case "attrs1":
-			res = l.SetAttrs1(slog.Attrs(w.attrs(op.Args)))
+			res = l.SetAttrs1(w.attrs1(op))
 		case "args":
 			res = l.Set(w.args(op.Args)...)
 		case "skip":
